@@ -2415,7 +2415,7 @@ SUB_TABLE = [
     (r".*reorder_buffer::ReorderBuffer::(put|advance)", r"arg1\.frame_count", r"1", "inside the arm / loop that established frame_count >= 1 (two decrements only inside `frame_count == 2`)", r"(eq\(2,arg1\.frame_count\)|eq\(arg1\.frame_count,2\)|ne\(0,arg1\.frame_count\))"),
     (r".*fragment_buffer::FragmentBuffer::write", r"arg1\.num_fragments", r"1", "num_fragments = fragment_id_last + 1 >= 1 (ActiveEntry::new, C04.c)", None),
     (r".*fragment_buffer::FragmentBuffer::write", r"arg1\.fragments_remaining", r"1", "a fragment is counted only when its bit was clear: as many decrements as bits, fragments_remaining starts at num_fragments (C04.f)", None),
-    (r".*assembly_window::AssemblyWindow::clear", r"arg1\.alloc", r".*alloc_size|var", "releases what try_add charged for this slot (C06.a/C06.b pairing)", None),
+    (r".*assembly_window::AssemblyWindow::clear", r"arg1\.alloc", r".*alloc_size|var|.*window\[arg2\].*@Closed\.0", "releases what try_add charged for this slot (C06.a/C06.b pairing)", None),
     (r".*packet_receiver::PacketReceiver::receive", r".*\.packet_count", r"1", "one decrement per delivered packet, one increment per accepted packet of that channel (handle_datagram)", None),
     (r".*packet_sender::PacketSender::emit_packet", r"arg1\.total_size", r"\[T\]::len\(.*\.data\)", "a stale TimeSensitive packet leaves the queue with the size enqueue_packet added (C20.b)", None),
     (r".*packet_sender::PacketSender::acknowledge", r"arg1\.(alloc|total_size)", r".*", "refunds what emit_packet charged / enqueue_packet added for the released slot (C06.g, C20.b)", None),
